@@ -555,14 +555,14 @@ pub fn c12_decode_items() {
 
 // ---- strings: find_string over a well-formed Strings category with symbolic contents -----------
 //@ harness: c12_find_string
-//@ property: C12
+//@ property: C12, C13
 //@ tier: thorough
 //@ unwind: 6
 //@ unwindset: 4Read4read:2; read_exact:2; category0:2; read_chunk:10
 //@ timeout: 3600
 //@ mem_gb: 45
 //@ functions: SubDeviceEeprom::find_string; SubDeviceEeprom::category; EepromRange::read_byte; EepromRange::skip_ahead_bytes; EepromRange::read; heapless::Vec::retain
-//@ bounds: Strings category right at the first category position holding 2 strings of symbolic length 0..=4 and symbolic bytes (incl. NUL and >= 0x80); destination capacity N = 4 (strings of exactly N bytes must be returned); index 1 or 2 (symbolic); 8-byte chunks. Measured 1476 s / 40.8 GB (runs alone)
+//@ bounds: Strings category right at the first category position holding 2 strings of symbolic length 0..=5 (5 = one more than the destination holds: must be refused) and symbolic bytes (incl. NUL and >= 0x80); destination capacity N = 4 (strings of exactly N bytes must be returned); index 1 or 2 (symbolic); 8-byte chunks. Measured 1476 s / 40.8 GB (runs alone)
 //@ assumes: the image is a well-formed strings category (header type 10, count 2, lengths inside the category) - C12 quantifies over well-formed EEPROMs
 //@ outside: more than 2 strings, strings longer than 4 bytes, string indices beyond the table (C13)
 #[kani::proof]
@@ -575,9 +575,9 @@ pub fn c12_find_string() {
     kani::assume(b(2) == 8 && b(3) == 0); // 8 words = 16 bytes of payload
     kani::assume(b(4) == 2); // two strings
     let l1 = b(5);
-    kani::assume(l1 <= 4);
+    kani::assume(l1 <= 5);
     let l2 = b(6 + u32::from(l1));
-    kani::assume(l2 <= 4);
+    kani::assume(l2 <= 5);
     let which: u8 = kani::any();
     kani::assume(which == 1 || which == 2);
     let (start, len) = if which == 1 { (6u32, l1) } else { (7 + u32::from(l1), l2) };
@@ -599,6 +599,11 @@ pub fn c12_find_string() {
             }
         }
         i += 1;
+    }
+    if len > 4 {
+        // one byte more than the destination holds: refused, never written past the buffer (C13)
+        assert!(matches!(r, Err(Error::StringTooLong { max_length: 4, string_length: 5 })));
+        return;
     }
     match r {
         Ok(Some(s)) => {
